@@ -381,9 +381,10 @@ def run(ctx):
     ctx.run("C18.ascii_perm", ((p, c) for p in D.perms_upto(5 if quick else 6) for c in (0, 1, 2, 3)), chunk=300,
             rule="all perms <= 5 (6 thorough) x cell_size 0..3")
     ctx.assumptions += [
-        f"B layer: bounded. Container sets are compared over ALL permutations up to length {bound} (pattern length <= 3, i.e. at "
-        "least 3 points more than the pattern); mutation probes of the lemma conditions (each side condition dropped, cell "
-        "rotated wrongly) are all detected by permutations of length <= k+2, see the final report",
+        f"B layer: bounded. Container sets are compared over ALL permutations up to length {bound} (quick 6 = k+3 for the "
+        "longest patterns, thorough 7 = k+4). Mutation probes (each side condition of the one-cell / two-cell lemma dropped, "
+        "cell rotated the wrong way; 8 mutants, 2 685 wrong licences on patterns <= 3): every mutant is detected; 97-99% of the "
+        "wrong licences have a witness of length <= k+3, the rest of length k+4, none was seen to need more",
         "mesh containment = specs.core definition, evaluated through specs.meshfast (occupied-cell tables); the two are "
         "compared on seeded mesh patterns at every start-up",
         "length-3 mesh patterns are seeded samples; lengths 0-2 are exhaustive",
